@@ -332,3 +332,278 @@ Definition fuel_of (K D R : nat) : nat := S ((S K) * (S ((S D) * (S (S R))))).
 
 Definition fuel_bound (E : env) (t : ty) (R : nat) : nat :=
   fuel_of (length (keys_ty t ++ env_keys E)) (Nat.max (depth t) (env_depth E)) R.
+
+(* ---- structural equality under the documented rules of Hash, for a flag vector ----
+   ru / rk: the correspondence between the user type pointers and between the Object
+   pointers of the two graphs (what differs between a graph and a copy of it); dom: the
+   user type pointers of the first graph that take part (all of them: fun _ => True).
+   Attribute
+   and value lists are compared after sorting by name, so declaration order is
+   irrelevant; struct:field tags are compared unless ignoreTags; user type names unless
+   ignoreNames (and always when ignoreFields); user type bodies unless ignoreFields. *)
+Section StructEq.
+  Variables (fl : flags) (ru : nat -> nat) (rk : nat -> nat) (dom : nat -> Prop).
+
+  Definition tags_ok (m m' : meta) : Prop := igT fl = true \/ tags m = tags m'.
+
+  Inductive teq : ty -> ty -> Prop :=
+  | te_prim p : teq (TPrim p) (TPrim p)
+  | te_arr i i' e e' : teq e e' -> teq (TArr i e) (TArr i' e')
+  | te_map ki ki' k k' ei ei' e e' : teq k k' -> teq e e' -> teq (TMap ki k ei e) (TMap ki' k' ei' e')
+  | te_obj key fs fs' :
+      Forall2 (fun f f' => fname f = fname f' /\ tags_ok (a_meta (finfo f)) (a_meta (finfo f'))
+                           /\ teq (ftype f) (ftype f'))
+              (isort fname fs) (isort fname fs') ->
+      teq (TObj key fs) (TObj (rk key) fs')
+  | te_union n vs vs' :
+      Forall2 (fun f f' => fname f = fname f' /\ teq (ftype f) (ftype f'))
+              (isort fname vs) (isort fname vs') ->
+      teq (TUnion n vs) (TUnion n vs')
+  | te_user id : dom id -> teq (TUser id) (TUser (ru id)).
+
+  Definition def_eq (d d' : utdef) : Prop :=
+    (negb (igN fl) || igF fl = true -> ut_display_name d = ut_display_name d') /\
+    (igF fl = false -> tags_ok (a_meta (ut_info d)) (a_meta (ut_info d')) /\ teq (ut_type d) (ut_type d')).
+
+  Definition env_eq (E E' : env) : Prop :=
+    forall id d, dom id -> elookup id E = Some d -> exists d', elookup (ru id) E' = Some d' /\ def_eq d d'.
+
+  Definition map_seen (s : seen) : seen := map (fun kv => (rk (fst kv), snd kv)) s.
+End StructEq.
+
+(* ---- Dup ----
+   A copy lives at fresh pointers. Which fresh pointer a Go allocation returns cannot
+   be observed, so the model names the copy of user type id as offu + id and the copy of
+   Object key as offk + key (offu, offk: beyond every pointer of the original). What can
+   be observed, and is modelled literally, is which nodes are allocated anew, which are
+   shared, and the memo of the dupper keyed by ID(): a user type whose ID() was already
+   seen is replaced by the copy made for that ID. *)
+
+(* DupAttribute: every field copied by assignment (Validation and Meta through their
+   own Dup, which copy the Required slice and the map), Docs is not copied *)
+Definition dup_info (i : ainfo) : ainfo := AI (a_meta i) (a_val i) (a_desc i) false (a_other i).
+
+(* ResultTypeExpr.Dup: Identifier and the Views slice (the same view pointers) are
+   kept, ContentType is not copied *)
+Definition dup_rt (r : option rtinfo) : option rtinfo :=
+  match r with Some r => Some (RT (rt_ident r) [] (rt_views r)) | None => None end.
+
+(* Object.Set *)
+Fixpoint obj_set (fs : list (fld ty)) (n : bytes) (i : ainfo) (t : ty) : list (fld ty) :=
+  match fs with
+  | [] => [F n i t]
+  | g :: r => if beq (fname g) n then F (fname g) i t :: r else g :: obj_set r n i t
+  end.
+
+Record dstate := DS { memo : list (bytes * nat); copies : env }.
+
+Fixpoint memo_lookup (k : bytes) (m : list (bytes * nat)) : option nat :=
+  match m with
+  | [] => None
+  | (k', v) :: r => if beq k k' then Some v else memo_lookup k r
+  end.
+
+Definition dres (A : Type) := option (dstate * A).
+
+Definition dup_fields (rec : dstate -> ty -> dres ty) : list (fld ty) -> dstate -> list (fld ty) -> dres (list (fld ty)) :=
+  fix go fs st acc :=
+    match fs with
+    | [] => Some (st, acc)
+    | f :: r => match rec st (ftype f) with
+                | None => None
+                | Some (st', t') => go r st' (obj_set acc (fname f) (dup_info (finfo f)) t')
+                end
+    end.
+
+Definition dup_values (rec : dstate -> ty -> dres ty) : list (fld ty) -> dstate -> dres (list (fld ty)) :=
+  fix go vs st :=
+    match vs with
+    | [] => Some (st, [])
+    | f :: r => match rec st (ftype f) with
+                | None => None
+                | Some (st', t') => match go r st' with
+                                    | None => None
+                                    | Some (st'', r') => Some (st'', F (fname f) (dup_info (finfo f)) t' :: r')
+                                    end
+                end
+    end.
+
+Section Dup.
+  Variables (E : env) (offu offk : nat).
+
+  (* dupper.DupType *)
+  Fixpoint dup_ty (fuel : nat) (st : dstate) (t : ty) : dres ty :=
+    match fuel with
+    | O => None
+    | S n =>
+      match t with
+      | TPrim p => Some (st, TPrim p)
+      | TArr i e =>
+        match dup_ty n st e with
+        | None => None
+        | Some (st', e') => Some (st', TArr (dup_info i) e')
+        end
+      | TMap ki k ei e =>
+        match dup_ty n st k with
+        | None => None
+        | Some (st1, k') =>
+          match dup_ty n st1 e with
+          | None => None
+          | Some (st2, e') => Some (st2, TMap (dup_info ki) k' (dup_info ei) e')
+          end
+        end
+      | TObj key fs =>
+        match dup_fields (dup_ty n) fs st [] with
+        | None => None
+        | Some (st', fs') => Some (st', TObj (offk + key) fs')
+        end
+      | TUnion nm vs =>
+        match dup_values (dup_ty n) vs st with
+        | None => None
+        | Some (st', vs') => Some (st', TUnion nm vs')
+        end
+      | TUser id =>
+        match elookup id E with
+        | None => None
+        | Some d =>
+          match memo_lookup (ut_id d) (memo st) with
+          | Some nid => Some (st, TUser nid)
+          | None =>
+            let nid := offu + id in
+            match dup_ty n (DS ((ut_id d, nid) :: memo st) (copies st)) (ut_type d) with
+            | None => None
+            | Some (st2, t') =>
+              Some (DS (memo st2)
+                       ((nid, UT (ut_name d) (ut_uid d) (dup_info (ut_info d)) t' (dup_rt (ut_rt d))) :: copies st2),
+                    TUser nid)
+            end
+          end
+        end
+      end
+    end.
+
+  (* expr.Dup(t): a fresh dupper *)
+  Definition Dup (fuel : nat) (t : ty) : option (env * ty) :=
+    match dup_ty fuel (DS [] []) t with
+    | Some (st, t') => Some (copies st, t')
+    | None => None
+    end.
+End Dup.
+
+(* budget for Dup: every user type is entered at most once *)
+Definition dup_fuel (E : env) (t : ty) : nat := S ((S (length E)) * (S (Nat.max (depth t) (env_depth E)))).
+
+(* ---- what a copy must be: the original with every pointer renamed ---- *)
+Section Shift.
+  Variables (offu offk : nat).
+
+  Fixpoint shift_ty (t : ty) : ty :=
+    match t with
+    | TPrim p => TPrim p
+    | TArr i e => TArr (dup_info i) (shift_ty e)
+    | TMap ki k ei e => TMap (dup_info ki) (shift_ty k) (dup_info ei) (shift_ty e)
+    | TObj key fs => TObj (offk + key) (map (fun f => F (fname f) (dup_info (finfo f)) (shift_ty (ftype f))) fs)
+    | TUnion n vs => TUnion n (map (fun f => F (fname f) (dup_info (finfo f)) (shift_ty (ftype f))) vs)
+    | TUser id => TUser (offu + id)
+    end.
+
+  Definition shift_def (d : utdef) : utdef :=
+    UT (ut_name d) (ut_uid d) (dup_info (ut_info d)) (shift_ty (ut_type d)) (dup_rt (ut_rt d)).
+End Shift.
+
+(* attribute names of every object are pairwise distinct (the envelope of the property) *)
+Fixpoint names_ok (t : ty) : Prop :=
+  match t with
+  | TPrim _ => True
+  | TUser _ => True
+  | TArr _ e => names_ok e
+  | TMap _ k _ e => names_ok k /\ names_ok e
+  | TObj _ fs => NoDup (map fname fs) /\ fold_right (fun f acc => names_ok (ftype f) /\ acc) True fs
+  | TUnion _ vs => fold_right (fun f acc => names_ok (ftype f) /\ acc) True vs
+  end.
+
+(* views: what ResultTypeExpr.Views points to. Dup never reads them; they matter for
+   what a copy shares with its original *)
+Record viewdef := VW { vw_name : bytes; vw_info : ainfo; vw_type : ty; vw_parent : nat }.
+
+(* the view pointers a set of user types can reach (and therefore write through) *)
+Definition views_of (E : env) : list nat :=
+  flat_map (fun p => match ut_rt (snd p) with Some r => rt_views r | None => [] end) E.
+
+(* ---- the class in which equal hashes imply equal structure (hash_sound_partial) ----
+   For types without user types the hash under the flags of Equal is the first
+   component of hp; the second says how the string ends: (dash, star) = it ends with the
+   attribute list of an object / the value list of a union, neither of which has a
+   closing delimiter. *)
+Definition last_ends (l : list (bytes * (bytes * (bool * bool)))) : bool * bool :=
+  match rev l with [] => (false, false) | (_, (_, e)) :: _ => e end.
+
+Fixpoint hp (t : ty) : bytes * (bool * bool) :=
+  match t with
+  | TPrim p => (prim_name p, (false, false))
+  | TArr _ e => (arrayPrefix ++ fst (hp e), snd (hp e))
+  | TMap _ k _ e => (mapPrefix ++ fst (hp k) ++ mapElemPrefix ++ fst (hp e), snd (hp e))
+  | TObj _ fs =>
+    let l := isort fst (map (fun f => (fname f, hp (ftype f))) fs) in
+    (objectPrefix ++ flat_map (fun p => attributePrefix ++ fst p ++ attributeTypePrefix ++ fst (snd p)) l,
+     (true, snd (last_ends l)))
+  | TUnion nm vs =>
+    let l := isort fst (map (fun f => (fname f, hp (ftype f))) vs) in
+    (unionTypePrefix ++ nm ++ flat_map (fun p => unionAttributePrefix ++ fst p ++ unionAttributeTypePrefix ++ fst (snd p)) l,
+     (fst (last_ends l), true))
+  | TUser _ => ([], (false, false))
+  end.
+
+Definition hpure (t : ty) : bytes := fst (hp t).
+
+(* all entries but the last satisfy P *)
+Fixpoint all_but_last {A} (P : A -> Prop) (l : list A) : Prop :=
+  match l with
+  | [] => True
+  | [_] => True
+  | x :: r => P x /\ all_but_last P r
+  end.
+
+Definition no_byte (c : N) (s : bytes) : Prop := ~ In c s.
+
+(* attribute names do not contain '/'; union value names do not contain '|'; union type
+   names contain none of '-' ':' '_' *)
+Definition union_name_ok (n : bytes) : Prop := no_byte 45 n /\ no_byte 58 n /\ no_byte 95 n.
+
+Fixpoint cls (t : ty) : Prop :=
+  match t with
+  | TPrim _ => True
+  | TUser _ => False
+  | TArr _ e => cls e
+  | TMap _ k _ e => cls k /\ cls e
+  | TObj _ fs =>
+    NoDup (map fname fs) /\
+    fold_right (fun f acc => (no_byte 47 (fname f) /\ cls (ftype f)) /\ acc) True fs /\
+    (* an attribute followed by a sibling does not end with an open attribute list *)
+    all_but_last (fun p => fst (snd (snd p)) = false) (isort fst (map (fun f => (fname f, hp (ftype f))) fs))
+  | TUnion nm vs =>
+    union_name_ok nm /\ NoDup (map fname vs) /\
+    fold_right (fun f acc => (no_byte 124 (fname f) /\ cls (ftype f)) /\ acc) True vs /\
+    (* a value followed by a sibling does not end with an open value list *)
+    all_but_last (fun p => snd (snd (snd p)) = false) (isort fst (map (fun f => (fname f, hp (ftype f))) vs))
+  end.
+
+(* structural equality of types without user types, up to declaration order and pointer
+   identity (the documented rules of Equal) *)
+Inductive tsim : ty -> ty -> Prop :=
+| ts_prim p : tsim (TPrim p) (TPrim p)
+| ts_arr i i' e e' : tsim e e' -> tsim (TArr i e) (TArr i' e')
+| ts_map ki ki' k k' ei ei' e e' : tsim k k' -> tsim e e' -> tsim (TMap ki k ei e) (TMap ki' k' ei' e')
+| ts_obj key key' fs fs' :
+    Forall2 (fun f f' => fname f = fname f' /\ tsim (ftype f) (ftype f')) (isort fname fs) (isort fname fs') ->
+    tsim (TObj key fs) (TObj key' fs')
+| ts_union n vs vs' :
+    Forall2 (fun f f' => fname f = fname f' /\ tsim (ftype f) (ftype f')) (isort fname vs) (isort fname vs') ->
+    tsim (TUnion n vs) (TUnion n vs').
+
+(* ---- writes through a copy ----
+   A write through a copy reaches a user type the copy points to (SetAttribute, Rename,
+   or any edit of its attribute tree, which is a value of the model): the heap gets a new
+   binding for that pointer. *)
+Definition write := (nat * utdef)%type.
+Definition apply_writes (ws : list write) (H : env) : env := fold_left (fun h w => w :: h) ws H.
